@@ -4,6 +4,7 @@ package sim
 
 import (
 	"context"
+	"github.com/cockroachdb/redact"
 	"sort"
 	"strings"
 
@@ -284,4 +285,75 @@ func Transfer(e error, hist []Proc) error {
 func KeysOf(e error) []string {
 	enc := errors.EncodeError(Ctx, e)
 	return TypeKeys(&enc)
+}
+
+// ---- messages as other versions of the library would send them -----------
+
+// visitNodes calls f for every node of the message (deep, through nested
+// EncodedErrors in Any payloads, which are re-marshalled after the visit).
+func visitNodes(e *errorspb.EncodedError, f func(l *errorspb.EncodedErrorLeaf, w *errorspb.EncodedWrapper)) {
+	var d *errorspb.EncodedErrorDetails
+	if w := e.GetWrapper(); w != nil {
+		visitNodes(&w.Cause, f)
+		f(nil, w)
+		d = &w.Details
+	} else if l := e.GetLeaf(); l != nil {
+		for _, c := range l.MultierrorCauses {
+			visitNodes(c, f)
+		}
+		f(l, nil)
+		d = &l.Details
+	} else {
+		return
+	}
+	if d.FullDetails != nil && strings.HasSuffix(d.FullDetails.TypeUrl, "/cockroach.errorspb.EncodedError") {
+		var ne errorspb.EncodedError
+		if err := proto.Unmarshal(d.FullDetails.Value, &ne); err == nil {
+			visitNodes(&ne, f)
+			if a, err := types.MarshalAny(&ne); err == nil {
+				d.FullDetails = a
+			}
+		}
+	}
+}
+
+const barrierKey = "github.com/cockroachdb/errors/barriers/*barriers.barrierErr"
+
+// OldPeer rewrites a message the way a peer running the PREVIOUS barrier
+// implementation would have sent it: barrier leaves travel under the old
+// type name (*barriers.barrierError) and their message is plain text (no
+// redaction markers: that version had no redactable messages). n is the
+// number of leaves rewritten.
+func OldPeer(b []byte) (out []byte, n int) {
+	enc, err := Unmarshal(b)
+	if err != nil {
+		return b, 0
+	}
+	visitNodes(&enc, func(l *errorspb.EncodedErrorLeaf, _ *errorspb.EncodedWrapper) {
+		if l != nil && l.Details.ErrorTypeMark.FamilyName == barrierKey {
+			l.Details.ErrorTypeMark.FamilyName = barrierKey + "or"
+			l.Details.OriginalTypeName = barrierKey + "or"
+			l.Message = redact.RedactableString(l.Message).StripMarkers()
+			n++
+		}
+	})
+	return Marshal(enc), n
+}
+
+// DropPayloads removes the structured payload (FullDetails) of every node
+// except those that carry a nested EncodedError: what a relay, or a peer
+// running a version without that payload, would deliver. The wire messages
+// and reportable strings stay.
+func DropPayloads(b []byte) (out []byte, n int) {
+	enc, err := Unmarshal(b)
+	if err != nil {
+		return b, 0
+	}
+	VisitDetails(&enc, func(d *errorspb.EncodedErrorDetails, _ bool) {
+		if d.FullDetails != nil && !strings.HasSuffix(d.FullDetails.TypeUrl, "/cockroach.errorspb.EncodedError") {
+			d.FullDetails = nil
+			n++
+		}
+	})
+	return Marshal(enc), n
 }
